@@ -319,7 +319,7 @@ struct MemEngine : Engine {
                 else if (c.form == "ct") t->store_ct[c.n](gp, areg[c.r]); else if (c.form == "act") t->aligned_store_ct[c.n](gp, areg[c.r]);
                 else if (c.form == "adef") t->aligned_store_def(gp, areg[c.r]); else t->store_def(gp, areg[c.r]);
                 break;
-            case OP_GATHER: if (c.form == "ct") t->gather_ct[c.n](gp, idxbuf, areg[c.r]); else if (c.form == "def") t->gather_def(gp, idxbuf, areg[c.r]); else t->gather(gp, idxbuf, c.n, areg[c.r]); break;
+            case OP_GATHER: if (c.form == "ct") t->gather_ct[c.n](gp, idxbuf, areg[c.r]); else if (c.form == "ded") t->gather_ded[c.n](gp, idxbuf, areg[c.r]); else if (c.form == "def") t->gather_def(gp, idxbuf, areg[c.r]); else t->gather(gp, idxbuf, c.n, areg[c.r]); break;
             case OP_SCATTER: if (c.form == "ct") t->scatter_ct[c.n](gp, areg[c.r], idxbuf); else if (c.form == "def") t->scatter_def(gp, areg[c.r], idxbuf); else t->scatter(gp, areg[c.r], idxbuf, c.n); break;
             case OP_FROMARR: t->from_array(gp, areg[c.r]); break;
             case OP_TOARR: t->to_array(areg[c.r], scratch); break;
@@ -385,7 +385,8 @@ struct MemEngine : Engine {
         const MType* t = c.t; const unsigned W = t->width, E = t->elem, VB = W * E;
         c.form = s.str("form", "rt"); c.n = (unsigned)s.unum("n"); c.r = (unsigned)(s.unum("r") & 3); c.lane = (unsigned)(s.unum("lane") % W);
         c.p = (std::size_t)s.unum("p"); c.idx = s.list("idx");
-        bool ctform = c.form == "ct" || c.form == "act";
+        bool ctform = c.form == "ct" || c.form == "act" || c.form == "ded";
+        if (c.form == "ded" && !(c.kind == OP_GATHER && t->gather_ded)) { rr->log.linef("%d %s skipped (no pointer-deduced gather for this type)", stepno, op.c_str()); return; }
         if (ctform && c.n > W) c.n = W;                       // compile-time forms only exist for N <= width
         if (c.form == "def" || c.form == "adef" || c.kind == OP_FROMARR) c.n = W;
         const unsigned m = std::min(c.n, W); const std::size_t len = (std::size_t)m * E;
@@ -501,6 +502,8 @@ struct MemEngine : Engine {
             if (after_adj && m < W && c.kind == OP_LOAD) st->probes["partial_load_flush_against_inaccessible_page"]++;
             if (before_adj) st->probes["range_starts_right_after_inaccessible_page"]++;
             if (c.n == 0 && mem_op) st->probes["n0_calls"]++;
+            if (c.form == "ded") st->probes["gather_pointer_deduced_form"]++;
+            if (c.form == "adef" || (is_gs && c.form == "def")) st->probes["aligned_or_gather_scatter_overload_without_count"]++;
             if (mem_op && !is_gs && len && ((WIN + c.p) >> 32) != ((WIN + c.p + len - 1) >> 32)) st->probes["addressed_range_contains_multiple_of_2^32"]++;
             if (is_gs) { bool lo = false, hi = false; for (unsigned i = 0; i < m && i < c.idx.size(); ++i) { std::uintptr_t a = WIN + c.p + (std::uintptr_t)(c.idx[i] * (std::int64_t)t->elem); if ((a >> 32) == ((WIN + c.p) >> 32)) lo = true; else hi = true; }
                 if (lo && hi) st->probes["gather_scatter_active_lanes_on_both_sides_of_a_multiple_of_2^32"]++; }
@@ -594,13 +597,13 @@ struct MemEngine : Engine {
     //------------------------------------------------------------ prefetch (C20)
     void prefetch_step(const Step& s, int stepno, const std::string& pages, const std::string& fault, unsigned poison) {
         Call c; c.kind = OP_PREFETCH; c.pw = (int)(s.unum("w") & 1); c.plevel = (int)(s.unum("level") % 3);
-        std::string form = s.str("form", "untyped"); c.pdef = form == "def"; c.ptyped = form.compare(0, 5, "typed") == 0 ? (int)(form[5] - '0') & 3 : -1;
+        std::string form = s.str("form", "untyped"); c.pdef = form == "def"; c.ptyped = form.compare(0, 5, "typed") == 0 ? (int)(form[5] - '0') % 7 : -1;
         c.pn = (std::size_t)s.unum("n");
         std::string ptr = s.str("ptr", "win");
         if (ptr == "null") { c.use_raw = true; c.praw = 0; }
         else if (ptr == "raw") { c.use_raw = true; c.praw = (std::uintptr_t)s.unum("addr"); }
         else { c.p = (std::size_t)s.unum("p") % WBYTES; }
-        static const unsigned TS[4] = {1, 4, 8, 64};
+        static const unsigned TS[7] = {1, 4, 8, 64, 72, 200, 4096};
         std::size_t bytes = c.pdef ? 1 : c.ptyped >= 0 ? c.pn * TS[c.ptyped] : c.pn;
         apply_pages(pages);
         std::uint32_t mx0, mx1; asm volatile("stmxcsr %0" : "=m"(mx0));
@@ -636,6 +639,7 @@ struct MemEngine : Engine {
         { std::uintptr_t a0 = c.use_raw ? c.praw : WIN + c.p, a1 = a0 + (bytes ? bytes - 1 : 0);
           if (bytes && a1 < a0) st->probes["prefetch_range_wraps_address_space"]++;
           else if (bytes && (a0 >> 32) != (a1 >> 32)) { st->probes["prefetch_range_contains_multiple_of_2^32"]++; if (!hits_bad) st->probes["prefetch_valid_range_contains_multiple_of_2^32"]++; } }
+        if (c.ptyped >= 4) st->probes["prefetch_typed_element_larger_than_cache_line"]++;
         if (ptr == "null") st->probes["prefetch_null_pointer"]++;
         if (bytes == 0) st->probes["prefetch_n0"]++;
         if (!ok && abort_reason == 4) {
@@ -725,7 +729,8 @@ struct MemEngine : Engine {
                                 for (unsigned bad = 0; bad < 2; ++bad) { if (pl == 3 && bad) continue; sweep.push_back({ti, (unsigned char)op, (unsigned char)form, (unsigned char)n, (unsigned char)pl, (unsigned char)bad, 0}); }
                         }
                 if (t->has_gather) for (unsigned op = 2; op < 4; ++op) for (unsigned form = 0; form < 3; ++form) for (unsigned n = 0; n <= W + 2; ++n) { if (form == 1 && n > W) continue; if (form == 2 && n != W) continue;
-                    for (unsigned pl = 0; pl < 7; ++pl) sweep.push_back({ti, (unsigned char)op, (unsigned char)(form == 1 ? 2 : form == 2 ? 4 : 0), (unsigned char)n, (unsigned char)pl, 0, 0}); }
+                    for (unsigned pl = 0; pl < 8; ++pl) sweep.push_back({ti, (unsigned char)op, (unsigned char)(form == 1 ? 2 : form == 2 ? 4 : 0), (unsigned char)n, (unsigned char)pl, 0, 0}); }
+                if (t->has_gather && t->gather_ded) for (unsigned n = 0; n <= W; ++n) for (unsigned pl = 0; pl < 8; ++pl) sweep.push_back({ti, 2, 6, (unsigned char)n, (unsigned char)pl, 0, 0});
                 for (unsigned lane = 0; lane < W; ++lane) { sweep.push_back({ti, 6, 0, (unsigned char)lane, 0, 0, 0}); sweep.push_back({ti, 7, 0, (unsigned char)lane, 0, 0, 0});
                     // the lane under test holds each special element value in turn (bad = 1 + spec): lane access must be pure bit movement
                     for (unsigned spec = 0; spec < 8; ++spec) { sweep.push_back({ti, 6, 0, (unsigned char)lane, 0, (unsigned char)(1 + spec), 0}); sweep.push_back({ti, 7, 0, (unsigned char)lane, 0, (unsigned char)(1 + spec), 0}); } }
@@ -759,7 +764,7 @@ struct MemEngine : Engine {
             }
         }
         if (c20 || prop.empty()) {
-            for (unsigned w = 0; w < 2; ++w) for (unsigned lv = 0; lv < 3; ++lv) for (unsigned form = 0; form < 6; ++form) for (unsigned nc = 0; nc < 10; ++nc) for (unsigned pc = 0; pc < 13; ++pc) pfsweep.push_back({w * 3 + lv, form, nc, pc});
+            for (unsigned w = 0; w < 2; ++w) for (unsigned lv = 0; lv < 3; ++lv) for (unsigned form = 0; form < 9; ++form) for (unsigned nc = 0; nc < 10; ++nc) for (unsigned pc = 0; pc < 13; ++pc) pfsweep.push_back({w * 3 + lv, form, nc, pc});
         }
     }
     // streaming sequences for prefetch: consecutive requests, each starting exactly where the previous one ended, walking
@@ -778,7 +783,7 @@ struct MemEngine : Engine {
     }
     std::uint64_t sweep_count() override { return sweep.size() + pfsweep.size() + stream_plans(); }
 
-    static const char* form_name(unsigned f) { static const char* F[6] = {"rt", "art", "ct", "act", "def", "adef"}; return F[f]; }
+    static const char* form_name(unsigned f) { static const char* F[7] = {"rt", "art", "ct", "act", "def", "adef", "ded"}; return F[f]; }
 
     void gs_indices(Step& s, const MType* t, unsigned n, unsigned variant, std::uint64_t salt, bool store) {
         // base pointer mid-window; active lanes aim at distinct elements next to page boundaries; inactive lanes are wild
@@ -792,7 +797,7 @@ struct MemEngine : Engine {
             if (i < m) {
                 // targets: last elements of page 2 (flush against NONE page 3), first elements of page 4, around base, negative side
                 std::size_t off;
-                switch (variant >= 5 ? 5u : variant >= 2 ? 4u : (i + variant) % 4) { case 0: off = 3 * PG - (std::size_t)(i / 4 + 1) * E; break; case 1: off = 4 * PG + (std::size_t)(i / 4) * E; break; case 2: off = base + (std::size_t)(i + 3) * 5 * E; break;
+                switch (variant == 7 ? (i % 4) : variant >= 5 ? 5u : variant >= 2 ? 4u : (i + variant) % 4) { case 0: off = 3 * PG - (std::size_t)(i / 4 + 1) * E; break; case 1: off = 4 * PG + (std::size_t)(i / 4) * E; break; case 2: off = base + (std::size_t)(i + 3) * 5 * E; break;
                     case 3: off = 1 * PG + (std::size_t)(i * 3 + 1) * E; break;
                     case 5: off = (i % 2) ? 4 * PG + (std::size_t)(i + 1) * E : 3 * PG - (std::size_t)(i + 1) * E; break;      // both sides of the inaccessible page, never p[0]
                     default:   // variants 2..4: orderings and collisions among the ACTIVE lanes
@@ -802,6 +807,10 @@ struct MemEngine : Engine {
                         break; }
                 v = ((std::int64_t)off - (std::int64_t)base) / (std::int64_t)E;
                 if (variant == 1 && i == m - 1 && m >= 2) v = idx[0];            // duplicate active index
+            } else if (variant == 7) {
+                // inactive lanes hold VALID indices of readable, non-zero elements: an implementation that ignores n neither faults nor
+                // stays invisible - the extra lanes come back non-zero (gather) or the extra elements are overwritten (scatter)
+                v = ((std::int64_t)(base + (std::size_t)(W + i + 2) * 3 * E) - (std::int64_t)base) / (std::int64_t)E;
             } else {
                 switch ((i + salt) % 5) {
                     case 0: v = ((std::int64_t)(3 * PG + 64) - (std::int64_t)base) / (std::int64_t)E; break;          // inside the NONE page
@@ -813,7 +822,7 @@ struct MemEngine : Engine {
             }
             idx.push_back(v);
         }
-        s.setu("p", base); s.set("pages", pages); s.setlist("idx", idx); s.set("place", variant == 0 ? "gs_edges" : variant == 1 ? "gs_dup" : variant == 2 ? "gs_desc_neg" : variant == 3 ? "gs_two_targets" : variant == 4 ? "gs_scramble" : variant == 5 ? "gs_base_in_none_page" : "gs_base_before_data");
+        s.setu("p", base); s.set("pages", pages); s.setlist("idx", idx); s.set("place", variant == 0 ? "gs_edges" : variant == 1 ? "gs_dup" : variant == 2 ? "gs_desc_neg" : variant == 3 ? "gs_two_targets" : variant == 4 ? "gs_scramble" : variant == 5 ? "gs_base_in_none_page" : variant == 6 ? "gs_base_before_data" : "gs_inactive_lanes_valid");
     }
 
     void sweep_plan(std::uint64_t i, Plan& out) override {
@@ -873,10 +882,11 @@ struct MemEngine : Engine {
         s.set("pages", pages);
     }
     static std::size_t pf_n(unsigned nc, std::uint64_t salt) { static const std::size_t N[10] = {0, 1, 2, 63, 64, 65, 128, 4096, 12288, 20000}; return N[nc % 10] + (nc >= 7 ? salt % 64 : 0); }
-    static const char* pf_form(unsigned f) { static const char* F[6] = {"untyped", "typed0", "typed1", "typed2", "typed3", "def"}; return F[f % 6]; }
+    static const char* pf_form(unsigned f) { static const char* F[9] = {"untyped", "typed0", "typed1", "typed2", "typed3", "def", "typed4", "typed5", "typed6"}; return F[f % 9]; }
+    static std::size_t pf_elem(unsigned f) { static const std::size_t S[9] = {1, 1, 4, 8, 64, 1, 72, 200, 4096}; return S[f % 9]; }
     void pf_sweep_plan(std::uint64_t i, Plan& out) {
         auto& c = pfsweep[(std::size_t)i]; Step s; s.op = "prefetch"; s.setu("w", c[0] / 3); s.setu("level", c[0] % 3); s.set("form", pf_form(c[1]));
-        std::size_t n = pf_n(c[2], i); if (c[1] == 4) n = n / 64 + (c[2] < 3 ? n : 0); s.setu("n", n);
+        std::size_t n = pf_n(c[2], i); if (pf_elem(c[1]) >= 64) n = n / pf_elem(c[1]) + (c[2] < 3 ? n : 0); s.setu("n", n);     // n counts elements: 0, 1, 2 elements and what the byte classes amount to
         pf_pointer(s, c[3], i); s.setu("poison", i % 200 + 1);
         bool neigh = c[3] == 0 && c[2] >= 1 && c[2] <= 6; s.set("fault", neigh ? "neigh" : "none"); if (neigh) { s.set("k", "all"); s.setu("ntag", i); }
         out.steps.push_back(s);
@@ -907,8 +917,8 @@ struct MemEngine : Engine {
                 k += cnt - 1; continue;
             }
             if (c20 && !r.chance(1, 6)) {
-                Step s; s.op = "prefetch"; s.setu("w", r.below(2)); s.setu("level", r.below(3)); s.set("form", pf_form((unsigned)r.below(6)));
-                unsigned nc = (unsigned)r.below(12); std::size_t n = nc < 10 ? pf_n(nc, r.below(64)) : (std::size_t)r.below(30000); if (s.str("form") == "typed3") n /= 32; s.setu("n", n);
+                Step s; s.op = "prefetch"; s.setu("w", r.below(2)); s.setu("level", r.below(3)); unsigned pff = (unsigned)r.below(9); s.set("form", pf_form(pff));
+                unsigned nc = (unsigned)r.below(12); std::size_t n = nc < 10 ? pf_n(nc, r.below(64)) : (std::size_t)r.below(30000); if (pf_elem(pff) >= 64) n = n / (pf_elem(pff) / 2) + (nc < 3 ? n : 0); s.setu("n", n);
                 pf_pointer(s, (unsigned)r.below(13), r.next() % 100000); s.setu("poison", r.chance(1, 2) ? r.below(250) + 1 : 0);
                 bool neigh = s.str("ptr") == "win" && r.chance(1, 3) && n <= 512; s.set("fault", neigh ? "neigh" : "none"); if (neigh) { s.setu("k", r.below(4096)); s.setu("ntag", r.below(1u << 20)); }
                 // random page map variations
@@ -938,7 +948,7 @@ struct MemEngine : Engine {
             } else if (w < 84 && t->has_gather) {
                 bool sc = r.chance(1, 2); s.op = sc ? "scatter" : "gather"; bool ct = r.chance(1, 3); if (ct && n > W) n = W;
                 bool gdef = !ct && r.chance(1, 8); if (gdef) n = W;
-                s.set("form", ct ? "ct" : gdef ? "def" : "rt"); s.setu("n", n); gs_indices(s, t, n, (unsigned)r.below(7), r.next() % 1000, sc);
+                s.set("form", ct ? ((!sc && t->gather_ded && r.chance(1, 2)) ? "ded" : "ct") : gdef ? "def" : "rt"); s.setu("n", n); gs_indices(s, t, n, (unsigned)r.below(8), r.next() % 1000, sc);
                 if (!sc && r.chance(1, 3)) { const std::size_t spots[4] = {3 * PG - 256, 4 * PG, 4 * PG + 512, 1 * PG};
                     for (std::size_t sp : spots) { Step f; f.op = "fill"; f.setu("p", sp); f.setu("len", 256); f.setu("tag", r.below(1u << 24)); f.setu("cls", 1 + r.below(6)); f.setu("e", t->elem); out.steps.push_back(f); } }
                 if ((fmask & 2) && sc && r.chance(1, 3)) { s.set("fault", "neigh"); s.setu("k", r.below(4096)); s.setu("ntag", r.below(1u << 20)); } else s.set("fault", "none");
